@@ -1,6 +1,7 @@
 """C10 — root finder returns n values: count, dispatch, termination shape, divisor discipline, polishing, deflation."""
 from .pdb import strip, walk, loc, ancestors
 from .terms import Ctx, num, show, lin_add
+from .common import value_before
 from .common import (P, F, SIZE, LEN, EQ, effects, callee_path, call_args, in_macro, rule_termination, effective_guards, facts_x,
                      is_zero_term, ctor_summary, loops_of)
 from .guards import facts, cond_atoms, norm_cmp
@@ -239,7 +240,8 @@ def run(rep, pdb, tier):
         pre = [x for x in bas if len(x.loops) == 1]
         upd = [x for x in bas if len(x.loops) == 2]
         xr = [s for s in effs if s.kind == "set" and s.target == roots and s.loops][0].value if sets else None
-        okp = len(pre) == 1 and pre[0].value == ("idx", ad, lin_add(j, num(1))) and _pos(pre[0].node) < _pos(e.loops[1])
+        b0 = value_before(ctx, bvar, e.loops[1])      # `let mut b; b = ad[j+1]` or `let mut b = ad[j+1]`
+        okp = b0 == ("idx", ad, lin_add(j, num(1)))
         oku = len(upd) == 1 and _pos(upd[0].node) > _pos(e.node)
         if oku:
             v = upd[0].value
@@ -310,6 +312,22 @@ def classify(pdb, ctx, fn, name, node, dn, d, nm, var):
                     ct = ctx.term(conds[0]["cond"]) if conds else None
                     if Bd == ("call", "complex::Complex<f64>::abs", alt) and ct is not None and ct[:2] == ("op", "<") and ct[2] in (A, Ad) and ct[3] in (B, Bd):
                         return True, "dominated by max(|gp|, |gm|) > 0 and gp is the candidate of larger modulus"
+    # the same selection written as an expression: `if |P| < |M| { M } else { P }` under max(|P|, |M|) > 0
+    def res(t):
+        r = ctx.def_term(t) if t[0] == "var" else None
+        return r if r is not None else t
+    dd = res(d)
+    if dd[0] == "ite" and dd[1][0] == "op" and dd[1][1] in ("<", ">", "<=", ">="):
+        X, Y = res(dd[1][2]), res(dd[1][3])
+        T, E = dd[2], dd[3]
+        if dd[1][1] in (">", ">="):
+            X, Y = Y, X
+        ab = lambda z: ("call", "complex::Complex<f64>::abs", z)
+        picks_larger = X in (ab(E), ab(res(E))) and Y in (ab(T), ab(res(T)))      # |E| < |T| -> T, else E
+        for f in fs:
+            if f[0] == "cmp" and f[1] == "<" and f[2] == num(0) and f[3][0] == "call" and str(f[3][1]).endswith("::max") and len(f[3]) == 4:
+                if picks_larger and {res(f[3][2]), res(f[3][3])} == {X, Y}:
+                    return True, "dominated by max(|P|, |M|) > 0 and the divisor is the candidate of larger modulus (selected by an if-expression)"
     # allow-list
     for (fname, sym), why in ALLOW.items():
         if fname != name:
